@@ -17,7 +17,7 @@ PNa == { <<"/", "~e~", "/", "a">>, <<"/", "~e~", "/", "b">>, <<"/", "~e~", "/", 
 ProbesNa == { <<>>, <<"/", "~e~", "/", "a">>, <<"/", "~e~", "/", "b">>, <<"/", "~e~", "/", "a", "b">>, <<"/", "~e~", "/">>, <<"/", "~e~", "a", "/", "a">>,
               <<"/", "~e~", "b", "a", "/", "b">>, <<"/", "a">>, <<"/", "~e~", "/", "A">>, <<"/", "e", "/", "a">>, <<"/", "~e~", "a", "/", "a", "/">> }
 \* case-insensitive trees emptied and refilled (the case flag must survive every way of emptying)
-PCase == { <<"/", "A", "/", "LOW">>, <<"/", "a", "/", "b">>, <<"/", "A", "/", "b">>, <<"/", "a">> }
+PCase == { <<"/", "A", "/", "LOW">>, <<"/", "a", "/", "b">>, <<"/", "A", "/", "b">> }
 ProbesCase == { <<>>, <<"/", "a">>, <<"/", "A">>, <<"/", "a", "/", "b">>, <<"/", "A", "/", "B">>, <<"/", "a", "/", "a", "b">>, <<"/", "A", "/", "A">>, <<"/", "a", "/", "B">> }
 \* sibling subtrees that accept the same string: /a/LOW/{a,b} next to /a/b/{a,AS}
 PSib == { <<"/", "a", "/", "LOW", "/", "a">>, <<"/", "a", "/", "LOW", "/", "b">>, <<"/", "a", "/", "b", "/", "a">>, <<"/", "a", "/", "b", "/", "AS">>, <<"/", "a", "/", "b">> }
